@@ -73,9 +73,19 @@ CLAIMED = {
              "permutation + Perm.eq_of_pairwise); hence for twin schemas the closed type tree, the Python codec bytes, the packed layout and the DBC "
              "description coincide. Tie: every generated schema is paired with a declaration-permuted twin and pushed through the Python codec, "
              "the packed encoder and the DBC generator.",
-        note="Partial: the C and C++ back ends are covered when their harnesses run (C03/C06); duplicate field ids are outside the theorem.",
+        note="The generated C is covered by compiled twins; the C++ back end is covered by C03's harness; duplicate field ids are outside the theorem.",
         technique="Lean 4 proof (sorting is permutation-invariant => all back-end models agree) + twin-schema differential check",
         ref="DESIGN.md section 8, C15"),
+    "C06": dict(
+        text="Lean theorems about the model of the generated C runtime on the uint64 word (mask, shift, OR / shift, mask, sign-extend): the OR of the "
+             "tiled signals is the number whose bits are the layout packing of the values (encodeWord_eq, via shiftLeft_add_eq_or_of_lt and induction over "
+             "the tiling), data byte k is the k-th group of 8 packing bits, DLC = ceil(bits/8), and decode(encode v) = v for every in-range value "
+             "(unsigned and two's-complement signed). Tie: fcp_can_c output from /repo's current templates is compiled with gcc together with a generated "
+             "harness and run on boundary/random values; frames and decoded values are compared with the model.",
+        note="Advertised subset only (flat structs, little-endian, scale 1, offset 0, no mux); floats compared by value after decode (-0.0 == +0.0); "
+             "the unaligned uint64 store is UB in ISO C and relied upon on x86-64; 'compiles' is decided by gcc.",
+        technique="Lean 4 proof (bit-field OR = concatenation; decode-encode identity) + compiled-code correspondence",
+        ref="DESIGN.md section 8, C06"),
     "C09": dict(
         text="Lean theorems: the model of Verifier.verify (category loop, registered checks in registration order, the code's own count>1 idiom) "
              "returns ok iff WellFormed S, iff WellFormed S and DbcOk S with the DBC checks, iff WellFormed S and COk S with the C checks; and the "
